@@ -132,6 +132,19 @@ Theorem names_own_partial : forall bd e role ps,
 Proof. exact names_own_partial_l. Qed.
 Print Assumptions names_own_partial.
 
+(* Histories on live objects (look-ups interleaved with edits of fields, crossrefs, replaced entries,
+   a new BibliographyData around the same objects): the answer to a look-up is the look-up in the graph
+   AS IT IS NOW, and that graph is determined by the edits alone -- two histories with the same edits
+   give the same answer whatever was looked up before (no memory, no cache).  Trivial in the model;
+   tied to the code by the mutation_history stream, where a stale answer is a disagreement. *)
+Theorem lookup_depends_only_on_current_graph : forall d ops ops' k f,
+  filter (fun op => negb (is_lookup op)) ops = filter (fun op => negb (is_lookup op)) ops' ->
+  last (run_history d (ops ++ [HLookup k f])) None
+    = lookup_now (graph_after d (filter (fun op => negb (is_lookup op)) ops)) k f /\
+  last (run_history d (ops ++ [HLookup k f])) None = last (run_history d (ops' ++ [HLookup k f])) None.
+Proof. exact lookup_depends_only_on_current_graph_l. Qed.
+Print Assumptions lookup_depends_only_on_current_graph.
+
 (* sensitivity (why the two fix: commits matter): without the visited test the lookup of any
    field on  @misc{a, crossref = {a}}  exhausts every fuel (Python: RecursionError, F4) ... *)
 Theorem visited_test_needed : forall fuel,
@@ -214,3 +227,12 @@ Proof. vm_compute. repeat split. Qed.
 Example names_own_example :
   names_var fc14a_parent (s2l "a") = Ok (Some (s2l "A")) /\ py_var None fc14a_parent (s2l "a") = Ok (Some (s2l "A")).
 Proof. vm_compute. split; reflexivity. Qed.
+
+(* a history: inherited value seen, parent edited -> new value, child gets its own -> own wins, own deleted and
+   crossref removed -> missing *)
+Example history_example :
+  run_history fl_good [HLookup (s2l "c") (s2l "x"); HSetField (s2l "T") (s2l "x") (s2l "Y"); HLookup (s2l "c") (s2l "x");
+                       HSetField (s2l "c") (s2l "X") (s2l "own"); HLookup (s2l "c") (s2l "x"); HDelField (s2l "c") (s2l "x");
+                       HDelField (s2l "m") (s2l "crossref"); HLookup (s2l "c") (s2l "x")]
+  = [Some (Ok (Some (s2l "X"))); Some (Ok (Some (s2l "Y"))); Some (Ok (Some (s2l "own"))); Some (Ok None)].
+Proof. vm_compute. reflexivity. Qed.
